@@ -450,6 +450,192 @@ def run_fetch(case):
     return {"viol": dedupe(viol), "stats": stats, "nontrivial": sorted(nt), "evaluations": 1}
 
 
+def run_scripted_upload_pack(case):
+    """A scripted upload-pack client (the whole conversation is written up front, as a stateless client would) against dulwich's
+    UploadPackHandler for every optional capability combination: multi_ack mode {none, multi_ack, multi_ack_detailed} x no-done x
+    include-tag x no-progress, with haves the server knows, haves it does not know, several have batches. The reply is decoded with the
+    independent pkt-line/side-band decoder and the independent pack reader."""
+    from dulwich.protocol import Protocol, pkt_line
+    from dulwich.repo import Repo
+    from dulwich.server import DictBackend, UploadPackHandler
+    from vt.checks import c19
+    if "scratch" not in _st:
+        _st["scratch"] = core.Scratch("c05-")
+    rng = random.Random(case["seed"])
+    base = _st["scratch"].sub("u%d" % rng.randrange(10 ** 9))
+    sd = os.path.join(base, "S.git")
+    viol, stats = [], {}
+    _st.pop("aoc", None)
+    try:
+        ids, commits, feats = gen_history(sd, rng, case.get("n", 14))
+        srefs = refs_of(sd)
+        if not srefs:
+            return {"viol": [], "stats": {}, "evaluations": 0, "nontrivial": []}
+        types = all_objects_cache(sd)
+        names = sorted(srefs)
+        want_names = rng.sample(names, rng.randint(1, min(3, len(names))))
+        wants = sorted(set(srefs[n] for n in want_names))
+        all_commits = sorted(o for o, t in types.items() if t == b"commit")
+        want_cl = closure(sd, wants) or set()
+        cand = [c for c in all_commits if c in want_cl]
+        known_haves = rng.sample(cand, min(len(cand), rng.choice([0, 0, 1, 2, 4]))) if cand else []
+        # never claim to have a wanted tip's whole closure away: keep at least something to send sometimes
+        unknown_haves = [b"%040x" % rng.getrandbits(160) for _ in range(rng.choice([0, 0, 1, 3]))]
+        haves = known_haves + unknown_haves
+        rng.shuffle(haves)
+        mode = case["mode"]
+        caps = [b"side-band-64k", b"thin-pack", b"ofs-delta"]
+        if mode != "none":
+            caps.append(mode.encode())
+        if case["no_done"] and mode == "multi_ack_detailed":
+            caps.append(b"no-done")
+        if case["include_tag"]:
+            caps.append(b"include-tag")
+        if case["no_progress"]:
+            caps.append(b"no-progress")
+        rng.shuffle(caps)
+        req = [pkt_line(b"want " + wants[0] + b" " + b" ".join(caps) + b"\n")]
+        for w in wants[1:]:
+            req.append(pkt_line(b"want " + w + b"\n"))
+        req.append(pkt_line(None))
+        batch = rng.choice([1, 2, 32])
+        for i in range(0, len(haves), batch):
+            for h in haves[i:i + batch]:
+                req.append(pkt_line(b"have " + h + b"\n"))
+            if i + batch < len(haves):
+                req.append(pkt_line(None))
+        req.append(pkt_line(b"done\n"))
+        out = io.BytesIO()
+        r = Repo(sd)
+        tag = "scripted/%s%s%s" % (mode, "+no-done" if b"no-done" in caps else "", "+include-tag" if case["include_tag"] else "")
+        try:
+            h = UploadPackHandler(DictBackend({b"/": r}), [b"/"], Protocol(io.BytesIO(b"".join(req)).read, out.write))
+            try:
+                h.handle()
+            except (MemoryError, RecursionError):
+                raise
+            except Exception as e:
+                viol.append({"sig": "C05/%s/upload-pack-handler-raises-%s" % (tag, type(e).__name__), "msg": str(e)[:200], "haves": [len(known_haves), len(unknown_haves)]})
+                return {"viol": dedupe(viol), "stats": stats, "evaluations": 1, "nontrivial": [tag]}
+        finally:
+            r.close()
+        frames, end = c19.ref_decode(out.getvalue())
+        if end != "eof":
+            viol.append({"sig": "C05/%s/reply-is-not-a-pkt-line-stream" % tag})
+            return {"viol": dedupe(viol), "stats": stats, "evaluations": 1, "nontrivial": [tag]}
+        stats["scripted_conversations"] = 1
+        # advertisement up to the first flush
+        try:
+            k = frames.index(None)
+        except ValueError:
+            viol.append({"sig": "C05/%s/advertisement-not-terminated" % tag})
+            return {"viol": dedupe(viol), "stats": stats, "evaluations": 1, "nontrivial": [tag]}
+        adv = {}
+        for f in frames[:k]:
+            line = f.split(b"\0")[0].rstrip(b"\n")
+            sha, _, name = line.partition(b" ")
+            if not name.endswith(b"^{}"):
+                adv[name] = sha
+        rest = frames[k + 1:]
+        acks, pack, progress, errors = [], bytearray(), 0, []
+        in_band = False
+        for f in rest:
+            if f is None or f == "D":
+                continue
+            if not in_band and (f.startswith(b"ACK ") or f.startswith(b"NAK")):
+                acks.append(f.rstrip(b"\n"))
+                continue
+            in_band = True
+            ch, body = f[0], f[1:]
+            if ch == 1:
+                pack += body
+            elif ch == 2:
+                progress += 1
+            elif ch == 3:
+                errors.append(bytes(body[:100]))
+            else:
+                viol.append({"sig": "C05/%s/frame-on-unknown-side-band-channel" % tag, "channel": ch})
+                break
+        if errors:
+            viol.append({"sig": "C05/%s/server-reported-error-on-band-3" % tag, "err": repr(errors[0])})
+        if case["no_progress"] and progress:
+            stats["progress_frames_despite_no_progress"] = progress      # counted: git also sends some band-2 text
+        # ACK discipline
+        known = set(known_haves)
+        for a in acks:
+            p = a.split()
+            if p[0] == b"ACK":
+                # with multi_ack, once the server could give up it acknowledges every further have, known or not, to stop the client
+                # (upload-pack.c does the same); without multi_ack only a commit the server has may be acknowledged
+                if p[1] not in (known if mode == "none" else set(haves)):
+                    viol.append({"sig": "C05/%s/server-acked-%s" % (tag, "a-have-it-does-not-have" if p[1] in set(haves) else "an-id-the-client-never-sent")})
+                if len(p) > 2 and mode == "none":
+                    viol.append({"sig": "C05/%s/ack-with-status-word-without-multi_ack" % tag, "ack": repr(a)})
+                if len(p) > 2 and p[2] not in (b"continue", b"common", b"ready"):
+                    viol.append({"sig": "C05/%s/unknown-ack-status" % tag, "ack": repr(a)})
+                if len(p) > 2 and mode == "multi_ack" and p[2] != b"continue":
+                    viol.append({"sig": "C05/%s/multi_ack-detailed-status-in-plain-multi_ack" % tag, "ack": repr(a)})
+        if not acks:
+            viol.append({"sig": "C05/%s/no-ACK-or-NAK-before-the-pack" % tag})
+        elif known and not any(a.startswith(b"ACK") for a in acks):
+            # not a clause of the property (the pack below is still judged for completeness and minimality): counted. Seen on this tree
+            # without multi_ack, where the single-ack walker treats the first flush like "done" and never reads later have batches.
+            stats["common_commit_offered_but_never_acked"] = stats.get("common_commit_offered_but_never_acked", 0) + 1
+        stats["ack_lines"] = len(acks)
+        # the pack
+        have_cl = closure(sd, sorted(known)) if known else set()
+        must = want_cl - (have_cl or set())
+        if not pack:
+            if must:
+                viol.append({"sig": "C05/%s/no-pack-although-objects-are-missing" % tag, "missing": len(must)})
+        else:
+            try:
+                pi = packfmt.parse_pack(bytes(pack))
+                ext = {}
+                need = [e.base_ref for e in pi.entries if e.type == packfmt.REF_DELTA]
+                inpack_raw = None
+                if need:
+                    ob = object_bytes(sd, [n_.hex().encode() for n_ in need])
+                    for n_ in need:
+                        v = ob.get(n_.hex().encode())
+                        if v:
+                            ext[n_] = v
+                objs, _ = packfmt.resolve(pi, ext)
+                sent = set(k_.hex().encode() for k_ in objs)
+                # thin bases must be objects the client said it has
+                for n_ in need:
+                    hx = n_.hex().encode()
+                    if hx not in sent and hx not in (have_cl or set()):
+                        viol.append({"sig": "C05/%s/thin-pack-base-is-not-among-the-clients-haves" % tag})
+                        break
+                stats["wire_packs"] = stats.get("wire_packs", 0) + 1
+                stats["wire_objects"] = stats.get("wire_objects", 0) + len(sent)
+                lacking = must - sent
+                if lacking:
+                    tl = sorted(set(types.get(m, b"?").decode() for m in lacking))
+                    viol.append({"sig": "C05/%s/pack-lacks-objects-of-the-wanted-closure/%s" % (tag, "+".join(tl)), "n": len(lacking), "known_haves": len(known)})
+                allowed = set(want_cl)
+                if case["include_tag"]:
+                    for name, v in adv.items():
+                        if name.startswith(b"refs/tags/") and types.get(v) == b"tag":
+                            peeled = core.git(["rev-parse", v.decode() + "^{}"], cwd=sd, check=False).stdout.strip()
+                            if peeled in want_cl or peeled in (have_cl or set()):
+                                for o in closure(sd, [v]) or set():
+                                    if types.get(o) == b"tag":
+                                        allowed.add(o)
+                extra = sent - allowed
+                if extra:
+                    tl = sorted(set(types.get(m, b"?").decode() for m in extra))
+                    viol.append({"sig": "C05/%s/sent-object-outside-closure-of-wants/%s" % (tag, "+".join(tl)), "n": len(extra)})
+                stats["resent_objects_receiver_already_had"] = stats.get("resent_objects_receiver_already_had", 0) + len(sent & (have_cl or set()))
+            except Exception as e:
+                viol.append({"sig": "C05/%s/wire-pack-undecodable-%s" % (tag, type(e).__name__), "err": str(e)[:150]})
+    finally:
+        shutil.rmtree(base, ignore_errors=True)
+    return {"viol": dedupe(viol), "stats": stats, "evaluations": 1,
+            "nontrivial": ["%s|haves=%d+%d|%s" % (tag, len(known_haves), len(unknown_haves), "np" if case["no_progress"] else "p")]}
+
+
 def run_hostile_want(case):
     """A client asks for an object id the server does not advertise (the commit of a deleted branch, a blob, a tree): the server either
     refuses, or whatever it sends stays within the closure of the refs it advertises."""
@@ -600,6 +786,8 @@ def worker_exit():
 def run_case(case):
     if case.get("kind") == "hostile-want":
         return run_hostile_want(case)
+    if case.get("kind") == "scripted-upload-pack":
+        return run_scripted_upload_pack(case)
     return {"fetch": run_fetch, "push": run_push}[case["kind"]](case)
 
 
@@ -616,13 +804,24 @@ def main(ctx):
     for t in PUSH_T:
         for i in range(ctx.budget(30, 300)):
             cases.append({"kind": "push", "transport": t, "seed": "%d/p/%s/%d" % (ctx.seed, t, i), "n": 16})
+    for mode in ("none", "multi_ack", "multi_ack_detailed"):
+        for no_done in (False, True):
+            for include_tag in (False, True):
+                for no_progress in (False, True):
+                    if no_done and mode != "multi_ack_detailed":
+                        continue
+                    for i in range(ctx.budget(10, 100)):
+                        cases.append({"kind": "scripted-upload-pack", "transport": "scripted", "mode": mode, "no_done": no_done, "include_tag": include_tag,
+                                      "no_progress": no_progress, "seed": "%d/u/%s/%s/%s/%s/%d" % (ctx.seed, mode, no_done, include_tag, no_progress, i)})
     for t in ("local", "tcp", "http"):
         for i in range(ctx.budget(20, 200)):
             cases.append({"kind": "hostile-want", "transport": t, "seed": "%d/h/%s/%d" % (ctx.seed, t, i), "n": 10})
     ctx.rule = ("random DAGs from git fast-import (merges, octopus, several roots, shared blobs/subtrees, gitlinks, symlinks, annotated tags of "
                 "commits/trees/blobs/tags) x receiver pre-state {empty, ancestor-closed partial history} x wants {all, some, one} x %d fetch and %d "
                 "push transports; hostile wants: a dulwich client asks the in-process, TCP and smart-HTTP servers for an object they do not advertise "
-                "(commit of a deleted branch, tree, blob; loose or packed). non-trivial = distinct (transport, receiver state, want kind, feature set)." % (len(FETCH_T), len(PUSH_T)))
+                "(commit of a deleted branch, tree, blob; loose or packed); a scripted upload-pack client for every optional capability "
+                "combination (multi_ack none/multi_ack/detailed x no-done x include-tag x no-progress) with known and unknown haves in batches, its "
+                "reply decoded with the independent pkt-line, side-band and pack readers. non-trivial = distinct (transport, receiver state, want kind, feature set)." % (len(FETCH_T), len(PUSH_T)))
     ctx.assumptions = ["closures computed with git rev-list --objects on the sender", "gitlink targets are not part of a closure",
                        "objects the receiver already had that are resent are counted, not judged"]
 
